@@ -25,7 +25,7 @@ type c04Shape struct {
 	Casc   bool   `json:"cascade"`
 }
 
-var c04Trans = []string{"join", "die", "return", "io_broken", "sql_broken", "diverged", "lag_moving", "lag_stalled", "recovery_mark", "turn_cascade", "steady", "partition_return_broken", "partition_return_diverged"}
+var c04Trans = []string{"join", "die", "return", "io_broken", "sql_broken", "diverged", "lag_moving", "lag_stalled", "recovery_mark", "turn_cascade", "steady", "partition_return_broken", "partition_return_diverged", "master_restart"}
 
 func c04Gen(seed int64, idx int) c04Shape {
 	r := rand.New(rand.NewSource(seed))
@@ -66,6 +66,8 @@ type c04Monitor struct {
 
 type c04Iter struct {
 	ia0, ib0   bool
+	masterOK0  bool   // the recorded master was up, writable and online when the iteration began
+	masterRec  string // the master's health record as this iteration read it
 	pending0   bool
 	begin      time.Duration
 	pingFailed bool
@@ -98,6 +100,16 @@ func newC04Monitor(sc *Scen, w int, ha []string) *c04Monitor {
 		s.W.Unlock()
 	})
 	s.OnIter(m.onIter)
+	s.OnDCS(func(inst, method, path, arg, res string) {
+		if method != "Get" || path != "health/"+s.CachedMaster() {
+			return
+		}
+		m.mu.Lock()
+		if it := m.it[inst]; it != nil {
+			it.masterRec = res
+		}
+		m.mu.Unlock()
+	})
 	return m
 }
 
@@ -269,7 +281,8 @@ func (m *c04Monitor) onIter(inst, state, next string, begin bool) {
 	defer m.mu.Unlock()
 	m.evalLocked(s.W)
 	if begin {
-		m.it[inst] = &c04Iter{ia0: m.ia, ib0: m.ib, pending0: m.pending(), begin: s.W.Now()}
+		ms0 := s.W.Servers[s.CachedMaster()]
+		m.it[inst] = &c04Iter{ia0: m.ia, ib0: m.ib, pending0: m.pending(), begin: s.W.Now(), masterOK0: ms0 != nil && ms0.Up && !ms0.ReadOnly && !ms0.Offline}
 		delete(m.faulted, inst)
 		return
 	}
@@ -286,6 +299,16 @@ func (m *c04Monitor) onIter(inst, state, next string, begin bool) {
 }
 
 // judgeEnd applies S1/S2 at the end (or cut point) of an iteration. World and monitor mutex held.
+// masterRecordGood: the master's own daemon publishes a good health record (otherwise the manager treats the master as
+// failed and leaves the iteration before it gets to the list).
+func (m *c04Monitor) masterRecordGood(it *c04Iter) bool {
+	if it.masterRec == "" {
+		return false
+	}
+	bad, _, _, parsed := parseHealth(it.masterRec)
+	return parsed && !bad
+}
+
 func (m *c04Monitor) judgeEnd(w *world.World, inst string, it *c04Iter, how string, faulted bool) {
 	pend := it.pending0 || m.pending()
 	master := m.sc.S.CachedMaster()
@@ -317,7 +340,7 @@ func (m *c04Monitor) judgeEnd(w *world.World, inst string, it *c04Iter, how stri
 			fmt.Sprintf("an iteration of %s (%s) destroyed (b): %s; it held when the iteration began; turned false after [%s]", inst, how, m.ibWhy, m.ibBroke), state)
 	}
 	// S1: a completed, fault-free iteration with the master healthy and writable establishes both
-	if how == "completed" && !faulted && ms.Up && !ms.ReadOnly && !ms.Offline && (it.semiStmts > 0 || it.wrote || (it.ia0 && it.ib0)) {
+	if how == "completed" && !faulted && ms.Up && !ms.ReadOnly && !ms.Offline && (it.semiStmts > 0 || it.wrote || (it.ia0 && it.ib0) || (it.masterOK0 && m.masterRecordGood(it))) {
 		mgr := m.managerHost()
 		if mgr != "" && !w.ReachLocked(mgr, master) {
 			return
@@ -520,6 +543,12 @@ func c04Scenario(u *Unit, name string, sh c04Shape, fault *c01Fault) (*Tracker, 
 				time.Sleep(c04InactDelay + 8*time.Second)
 				s.W.Isolate(subject, false)
 			}()
+		case "master_restart":
+			// mysqld of the master restarts in place: its non-persisted semi-sync variables are back at OFF while the
+			// membership does not change at all
+			s.W.Crash(hosts[0])
+			time.Sleep(1500 * time.Millisecond)
+			s.W.Restart(hosts[0])
 		case "recovery_mark":
 			s.ZK.Put("operator", NS+"/recovery/"+subject, "null")
 		case "turn_cascade":
@@ -614,7 +643,7 @@ func c04Run(u *Unit) {
 }
 
 func init() {
-	register(&Prop{ID: "C04", Units: func(tier string) int { return tierN(tier, 78, 390) }, Run: c04Run,
+	register(&Prop{ID: "C04", Units: func(tier string) int { return tierN(tier, 84, 420) }, Run: c04Run,
 		Floor: func(string) []string {
 			f := []string{"fault:kill-after", "fault:fail", "fault:dcs-fail", "eviction"}
 			for _, t := range c04Trans {
@@ -624,5 +653,5 @@ func init() {
 			}
 			return f
 		},
-		Rule: "unit = (2-5 HA nodes, configured count 1-3, adjustment order, cascade) x one membership/health transition applied to a converged semi-sync cluster; baseline run enumerates the manager's call boundaries of the update, then one run per sampled (boundary x {manager dies right after the call, the call fails}), half of the sample stratified to the semi-sync statements; two compound transitions let a member be unreachable beyond the inactivation delay and return ineligible with its flag still set; predicates (a),(b) are evaluated on ground truth after every mutating event; non-trivial = the run issued semi-sync statements or wrote the list; distinct by (transition, n, w, order, fault kind, boundary class)"})
+		Rule: "unit = (2-5 HA nodes, configured count 1-3, adjustment order, cascade) x one membership/health transition applied to a converged semi-sync cluster; baseline run enumerates the manager's call boundaries of the update, then one run per sampled (boundary x {manager dies right after the call, the call fails}), half of the sample stratified to the semi-sync statements; a restart of the master in place (membership unchanged, its semi-sync variables back at OFF); two compound transitions let a member be unreachable beyond the inactivation delay and return ineligible with its flag still set; predicates (a),(b) are evaluated on ground truth after every mutating event; non-trivial = the run issued semi-sync statements or wrote the list; distinct by (transition, n, w, order, fault kind, boundary class)"})
 }
